@@ -11,12 +11,12 @@ ADDENDA = {
     "C02": " Later widenings: integer-valued flows with weight_type=float (type check strict for both types), zero-flow elements forced by constraints. Fourth-round widening: integer weight type on half-integral conserved flows.",
     "C03": " Later widenings: crossing constraints (all in/out pairs of a node), constraints forcing more paths than edges, length coverage with non-integral lengths and with a length attribute under count coverage, scanning windows of ignored edges, magnitude-shifted instances (1e6, 1e9, 2^-20; disagreements keyed by magnitude), 60 s solver limit. Third-round widenings: the options object of every lower-bound setting re-used for a later single-path instance; presolve classification of magnitude-shifted instances. Fourth-round widenings: small stated values on ignored elements (ignored detours), presolve classification and the 2^-20 magnitude key. Fifth-round widenings: 'ignored-tail' family (a whole level cut of ignored edges with other values) under the partition-constraint options; known key for the min-gen-set lower bound at magnitude 1e6.",
     "C04": " Later widenings: constrained hubs (optimum > #edges), factors 1e4/1e6, classification of solver-presolve defects by re-solving with presolve off. Third-round widenings: hub-on-a-cycle family, crossing subset constraints, the returned walks checked against every subset constraint. Fourth-round widening: non-whole scale factors on single planted walks. Fifth-round widenings: repeated entries in subset constraints, a corpus instance whose guessed-weights decomposition is not minimum.",
-    "C05": " Later widenings: 'spine' and 'decimal hub' flow families (zero-excess windows, decimal floats), length coverage with k below the cover number, min-gen-set options on decimal float flows, node-weighted rings with additional start/end nodes, classification of solver-presolve defects. Third-round widening: the options object of every MinFlowDecomp setting re-used for a later single-path instance. Fifth-round widenings: all combinations of the safe-sequence sub-switches while it is on, acyclic inputs to the walk models, length-coverage cover corpus.",
+    "C05": " Later widenings: 'spine' and 'decimal hub' flow families (zero-excess windows, decimal floats), length coverage with k below the cover number, min-gen-set options on decimal float flows, node-weighted rings with additional start/end nodes, classification of solver-presolve defects. Third-round widening: the options object of every MinFlowDecomp setting re-used for a later single-path instance. Fifth-round widenings: all combinations of the safe-sequence sub-switches while it is on, acyclic inputs to the walk models, length-coverage cover corpus. Sixth-round: solver-presolve classification also when it is the all-off baseline that presolve gets wrong.",
     "C06": " Later widenings: trusted sets restricted to coverable edges, graphs with parts on no source-to-sink walk, the DAG models' own safe lists incl. zero-length constraint edges, inexact flow intervals. Third-round widening: DAG models with additional start / end nodes (and kMinPathError) in the safe-list judgement. Fourth-round widening: queued bound updates (fix_via_bounds) of constructed models are judged. Fifth-round widenings: cover models judged against the caller's non-ignored edges (also with additional starts/ends), 'exactly once' entries judged for soundness, doubled-edge corpus.",
     "C07": " Later widenings: trusted edges (explicit / percentile) with a validity check of the trust assumption, supersets exceeding every flow ('hourglass'), classification of solver-presolve defects and of the product helper's bit width. Third-round widening: integer weight type on fractional data (corpus; value disagreements keyed as a known input class). Fourth-round widening: flows stored as (unsigned) numpy integers.",
-    "C08": " Later widenings: exact covering number on the SCC multigraph, bundles of parallel inter-SCC edges with k=None, path-length factors < 1, supersets exceeding every flow. Third-round widenings: 'dip' chains with scaled-down over-explained edges, integer weight type on fractional data. Fourth-round widenings: path-length factors below 1/2 and 0, decimal factors read as decimal fractions by the reference. Fifth-round widening: explicit length attribute (whole lengths incl. 0) with and without path-length factors.",
+    "C08": " Later widenings: exact covering number on the SCC multigraph, bundles of parallel inter-SCC edges with k=None, path-length factors < 1, supersets exceeding every flow. Third-round widenings: 'dip' chains with scaled-down over-explained edges, integer weight type on fractional data. Fourth-round widenings: path-length factors below 1/2 and 0, decimal factors read as decimal fractions by the reference. Fifth-round widening: explicit length attribute (whole lengths incl. 0) with and without path-length factors. Sixth-round widening: given weights together with path-length factors (weights far below the flow, factor pairs on both sides of 1).",
     "C09": " Later widenings: width histories with additional starts/ends, interleaved convention-free queries and duplicate ignore entries, length-coverage cases, constrained hub, a 1100-node path. Fourth-round widenings: numpy-typed lengths, a dense block behind a hub edge, presolve classification (key C09/solver-presolve-defect/*).",
-    "C10": " Later widenings: percentile-based ignoring vs the explicit list, trusted-edge variants with an outlier detour and tight k, cover models judged for still covering everything, non-integral lengths, length attribute under count coverage. Third-round widenings: crossing constraints (k = planted + 1) and a 'waist' shape with the greedy shortcut on. Fourth-round widening: one node as additional start and end compared with 'start only' / 'end only'. Fifth-round widening: repeated entries in subset constraints; no feasibility verdict for error models on all-zero weights.",
+    "C10": " Later widenings: percentile-based ignoring vs the explicit list, trusted-edge variants with an outlier detour and tight k, cover models judged for still covering everything, non-integral lengths, length attribute under count coverage. Third-round widenings: crossing constraints (k = planted + 1) and a 'waist' shape with the greedy shortcut on. Fourth-round widening: one node as additional start and end compared with 'start only' / 'end only'. Fifth-round widening: repeated entries in subset constraints; no feasibility verdict for error models on all-zero weights. Sixth-round widening: crossing constraints under length coverage whose first edge has no length attribute.",
     "C11": " Later widenings: node-length coverage corpus for the cover models, node-weighted graphs whose edges carry an attribute of the same name, percentile ignoring, all three reported numbers of MinErrorFlow. Fifth-round widening: MinFlowDecomp with additional starts/ends compared with a hand-built expansion (helper source/sink joined by ignored edges).",
     "C12": " Later widenings: unsorted ranges of the piecewise-constant helper, scalar creation bounds of numpy / Fraction types. Third-round widening: one variable in both queues (fix v, lower bound v) before one optimize. Fourth-round widenings: custom time-out route of optimize(); returned values must satisfy the constraints and reproduce this run's optimum. Fifth-round widenings: objective expressions with repeated variables; lower-bound requests below the bound in force and later batches after optimize().",
     "C13": " Later widenings: re-solve histories (solve, fault, solve), models restricted to an infeasible weights superset. Third-round widenings: kFlowDecomp with default options for every k (getters before / after solve), guessed-weights pre-step holding more paths than the lower bound. Fourth-round widenings: re-solve histories for the searches over k, fault-then-clean-re-solve histories (a time-limited clean run gives no verdict). Fifth-round widening: 'edited' histories (model changed through its solver object after a solve, then solved again).",
